@@ -2,7 +2,7 @@ import datetime
 import math
 
 DAYS_PER_MONTH = [31, 28, 31, 30, 31, 30, 31, 31, 30, 31, 30, 31]
-DAYS_EPOCH = 25569
+DAYS_1900 = 2  # day number of 1900-01-01, the year to_oa_date starts counting from
 
 
 def is_leap_year(year):
@@ -34,8 +34,8 @@ def to_oa_date(date):
 
 
 def to_date(oadate):
-    value = oadate - DAYS_EPOCH
-    year = 1970
+    value = oadate - DAYS_1900
+    year = 1900
     while value >= year_days(year):
         value -= year_days(year)
         year += 1
